@@ -76,7 +76,7 @@ fn scenarios_unordered(prop: &str, tier: &str) -> Vec<Scenario> {
                 worlds.push(b.world_named("marginal-start", vec![b.marginal.clone()]));
                 worlds.push(b.world_named("goal-overlap", vec![b.goal_overlap.clone()]));
                 worlds.push(b.world_named("goal-overlap+subset0101", vec![b.goal_overlap.clone(), b.obstacles[0].clone(), b.obstacles[2].clone()]));
-                steps = if thorough { vec![0.6, 1.0, 1.6, 1e6] } else { vec![1.0, 1.6] };
+                steps = if thorough { vec![0.6, 1.0, 1e6] } else { vec![1.0, 1.6] };
             }
             "C02" => {
                 worlds.push(b.world_free());
@@ -111,7 +111,7 @@ fn scenarios_unordered(prop: &str, tier: &str) -> Vec<Scenario> {
             "C05" => {
                 worlds.push(b.world_free());
                 worlds.push(b.world_named("subset0011", vec![b.obstacles[0].clone(), b.obstacles[1].clone()]));
-                steps = if thorough { vec![1e-3, 0.3, 0.6, 1.0, 1.6, 4.0, 1e6] } else { vec![0.3, 1.0, 1.6, 1e6] };
+                steps = if thorough { vec![1e-3, 0.3, 1.0, 1.6, 1e6] } else { vec![0.3, 1.0, 1.6, 1e6] };
                 radius_muls = if thorough { vec![0.5, 1.5, 2.5] } else { vec![0.5, 2.5] };
             }
             _ => panic!("scenarios(): {prop}"),
